@@ -433,6 +433,7 @@ func (s *SSEServer) handleSSE(w http.ResponseWriter, r *http.Request) {
 	// Send endpoint event.
 	endpointURL := s.getMessageEndpointForClient(sessionID)
 	if !stream.SendEvent("endpoint", endpointURL) {
+		s.sessions.Delete(sessionID)
 		return
 	}
 
